@@ -30,8 +30,18 @@ def warmup():
 def _case(draw):
     analytic = draw(st.integers(0, 3)) == 0
     big = draw(st.integers(0, 5)) == 0  # large vertical grids now and then (up to ~160 nodes)
+    steep = draw(st.integers(0, 4)) == 0  # fine cells under a tall column: shooting growth up to e^45 (rounding-dominated
+    # upper levels; the slices must still be the same arrays whichever levels are requested together)
     case = draw(gen.problem(kinds=("const",) if analytic else (("closure",) if big else ("closure", "free", "const")),
-                            nzmax=24, nclosure=80 if big else 12, nmax=8))
+                            nzmax=24, nclosure=80 if big else 12, nmax=8, gmax=45.0 if steep else 13.8))
+    case["steep"] = steep
+    if steep:
+        import math as _m
+        zz, pp = gen.build_profiles(case["prof"])
+        for _ in range(60):  # refine the cells until the Nyquist mode's growth is in the rounding-dominated range
+            if tol.log_growth(zz, pp, _m.pi / case["dx"], _m.pi / case["dy"]) >= 34.0:
+                break
+            case["dx"], case["dy"] = float(f"{case['dx'] * 0.85:.6g}"), float(f"{case['dy'] * 0.85:.6g}")
     z, _ = gen.build_profiles(case["prof"])
     nz = len(z)
     case["analytic"] = analytic
@@ -111,6 +121,11 @@ def check_case(case):
     conc3, flx3, Z3 = sut.as3d(conc), sut.as3d(flx), sut.as3d(Z)
 
     _, cfull, ffull = sut.S(q0, z, prof, dom, list(range(nz)), **kw)
+    if case.get("steep"):
+        out.label("steep-column")
+    if not (np.all(np.isfinite(cfull)) and np.all(np.isfinite(ffull))):
+        out.label("non-finite-column(skipped)")  # overflow in a rounding-dominated column: nothing to compare
+        return out
     fs0, cs0 = (0.0, 0.0) if fpm else tol.natural_scales(q0, z, prof, case["bg"])
     bit = True
     for k, l in enumerate(lv):
